@@ -1,14 +1,3 @@
-//! Checks over the structured-concurrency runtime: C17.
-mod c17;
-
 fn main() {
-    let env = common::Env::from_args();
-    let code = match env.property.as_str() {
-        "C17" => c17::main(&env),
-        p => {
-            eprintln!("concprop: unknown property {p}");
-            2
-        }
-    };
-    std::process::exit(code);
+    concprop::engine_main()
 }
